@@ -28,19 +28,6 @@ fn slice_cursor_from<'a>(s: &'a mut [u8], from: usize) -> (r: SliceCursor<'a>)
 spec fn page_hdr_same(a: Page, b: Page) -> bool {
     a.id == b.id && a.page_type == b.page_type && a.count == b.count && a.overflow == b.overflow
 }
-// value bytes of an in-memory entry: the value, or the 16 bytes of the nested bucket's header
-spec fn leaf_val_len(l: Leaf) -> nat { match l { Leaf::Bucket(_, _) => 16, Leaf::Kv(_, v) => bytes_view(v).len() } }
-impl<'a> Leaf<'a> {
-    // node.rs Leaf::value / node_type (Bytes::as_ref / BucketMeta::as_ref: 16 bytes, Kani k1_bucket_meta_codec; ASSUMED here)
-    #[verifier::external_body]
-    fn value(&self) -> (r: &[u8])
-        ensures r@.len() == leaf_val_len(*self),
-    { unimplemented!() }
-    #[verifier::external_body]
-    fn node_type(&self) -> (r: NodeType)
-        ensures r == (if *self is Kv { 0u8 } else { 1u8 }),
-    { unimplemented!() }
-}
 // total length of the payload slices queued for copying
 spec fn total_len(s: Seq<&[u8]>) -> nat
     decreases s.len(),
